@@ -213,7 +213,13 @@ func (vr *VerifiableReader) cacheWithReader(ctx context.Context, currentDepth in
 			if !ok {
 				break
 			}
-			nr += chunkSize
+			// The chunk must contain the current offset; otherwise this loop doesn't advance (empty or negative-sized
+			// chunks) or caches unrelated ranges.
+			if chunkOffset < 0 || chunkOffset+chunkSize < chunkOffset || nr < chunkOffset || nr >= chunkOffset+chunkSize {
+				rErr = fmt.Errorf("invalid chunk (offset:%d,size:%d) of %q at offset %d", chunkOffset, chunkSize, name, nr)
+				return false
+			}
+			nr = chunkOffset + chunkSize
 
 			if err := sem.Acquire(ctx, 1); err != nil {
 				rErr = err
